@@ -28,7 +28,8 @@ def sh(cmd, cwd=None, env=None, timeout=7200):
 
 
 def main():
-    args = [a for a in sys.argv[1:] if not a.startswith("--")]
+    argv = sys.argv[1:]
+    args = [a for i, a in enumerate(argv) if not a.startswith("--") and not (i and argv[i - 1] in ("--jobs", "--tier"))]
     jobs = int(next((sys.argv[i + 1] for i, a in enumerate(sys.argv) if a == "--jobs"), "3"))
     tier = next((sys.argv[i + 1] for i, a in enumerate(sys.argv) if a == "--tier"), "quick")
     names = sorted(os.path.basename(os.path.dirname(p)) for p in glob.glob(os.path.join(VERIF, "seeded", "*", "meta.json")))
